@@ -83,7 +83,10 @@ def next_run(c):
         if txt != "raised" and (int(c["now"]) // 60 + len(c["days"]) + sum(map(ord, c["start"]))) % 2 == 0:
             from aioswitcher.schedule.parser import SwitcherSchedule
             try: shown = SwitcherSchedule(str(int(c["now"]) % 8), bool(c["days"]), {DAYS[i] for i in c["days"]}, c["start"], "23:59").display
-            except Exception as e: shown = "raised " + type(e).__name__
+            except Exception as e:
+                shown = "raised " + type(e).__name__
+                try: tools.calc_duration(c["start"], "23:59")
+                except Exception: shown = txt          # the object cannot be built because its DURATION cannot be computed: C14's subject, not this one
             if shown != txt: txt = "%s (SwitcherSchedule.display; pretty_next_run itself says: %s)" % (shown, txt)
             else:
                 # ... and of a schedule object derived from another one (an edited schedule): dataclasses.replace / rebuilt from asdict()
